@@ -26,6 +26,7 @@ func runC18(p *Program, r *Report) {
 	checkExitAfterCompletion(p, r, "meta/jpegmeta")
 	checkBuffering(p, r)
 	checkSegmentConsumption(p, r)
+	checkFirstSegment(p, r)
 	r.Floor("C18.E1", 6)
 	r.Floor("C18.E2", 2)
 	r.Floor("C18.E3", 4)
@@ -413,6 +414,88 @@ func checkSegmentConsumption(p *Program, r *Report) {
 		holds = fmt.Sprintf("all %d explored success paths consume a run of 0xFF bytes (prefix and fill bytes, each compared with 0xFF), the marker code and an optional 2-byte length — nothing else is skipped", len(pr.Succ))
 	}
 	r.Check(good, "C18.E4", "jpeg readMarker consumption", p.FnPos(rm), holds, why)
+}
+
+// checkFirstSegment: the first ReadSegment of a freshly made segment reader — the one
+// that has to find the start-of-image marker — consumes one marker (2 bytes, or 4 plus
+// the declared payload): it does not scan the stream for it. A reader that skips
+// leading bytes until it sees FF D8 makes the JPEG candidate of the auto-detecting
+// loader swallow the whole of any non-JPEG file (seed C18-O).
+func checkFirstSegment(p *Program, r *Report) {
+	mk := p.Func("meta/jpegmeta", "NewSegmentReader")
+	rs := p.Method("meta/jpegmeta", "segmentReader", "ReadSegment")
+	key := "jpeg first segment"
+	if mk == nil || rs == nil {
+		r.Undecide("C18.E4", key, "-", "NewSegmentReader / (*segmentReader).ReadSegment not found")
+		return
+	}
+	r.SawFn(shortFn(rs))
+	e := NewEngine(p)
+	e.EvalInits = true
+	e.MaxIter, e.MaxForks = 3, 3
+	e.PruneByFacts = true
+	st := newState()
+	s := &Stream{Name: "in"}
+	st.pos[s] = formInt(0)
+	outs := e.Run(mk, []Val{&ReaderVal{S: s}}, st)
+	if len(outs) != 1 || outs[0].Kind != "return" {
+		r.Undecide("C18.E4", key, p.FnPos(mk), "NewSegmentReader is not a plain constructor")
+		return
+	}
+	good, why, n := true, "", 0
+	for _, o := range e.Run(rs, []Val{outs[0].Ret}, outs[0].St) {
+		switch o.Kind {
+		case "return":
+			tp, _ := o.Ret.(Tuple)
+			if len(tp) == 2 {
+				if ev, ok := tp[1].(*ErrVal); !ok || !ev.IsNil {
+					continue
+				}
+			}
+			n++
+			pos := o.St.pos[s]
+			c, isC := pos.ConstInt()
+			// the marker prefix and any fill bytes: leading bytes the path compared equal to 0xFF
+			eqs := byteEqConds(e, o)
+			base := int64(0)
+			for {
+				if v, ok := eqs[fmt.Sprint(base)]; ok && v == 0xff {
+					base++
+					continue
+				}
+				break
+			}
+			base++ // the marker code
+			if isC && base >= 2 && (c == base || c == base+2) {
+				continue // stand-alone marker; marker with a length field and no payload
+			}
+			// the length field counts itself and the payload
+			want := formInt(base).Add(e.beU16(formInt(base)))
+			if base < 2 || !pos.Equal(want) {
+				good, why = false, "the first segment read ends at offset "+trunc(pos.Key(), 80)+"; a marker is FF xx, or FF xx + a 2-byte length + (length − 2) bytes of payload"
+			}
+		case "cutoff":
+			// a reader that accepts fill bytes loops while the byte just read is 0xFF (ITU T.81
+			// B.1.1.2); the exploration bound is reached inside that run when every byte consumed
+			// so far is one the path has compared equal to 0xFF — nothing else was skipped
+			if c, isC := o.St.pos[s].ConstInt(); isC && c >= 2 {
+				eqs := byteEqConds(e, o)
+				nFF := int64(0)
+				for j := int64(0); j < c; j++ {
+					if v, ok := eqs[fmt.Sprint(j)]; ok && v == 0xff {
+						nFF++
+					}
+				}
+				if nFF >= c-1 {
+					continue
+				}
+			}
+			good, why = false, "the first segment read loops over the stream ("+o.Why+" at "+p.Pos(o.Pos)+"): it searches for a marker instead of reading one, so a stream that is not a JPEG is consumed to its end"
+		default:
+			good, why = false, "the first segment read is not extractable: "+o.Why+" at "+p.Pos(o.Pos)
+		}
+	}
+	r.Check(good && n > 0, "C18.E4", key, p.FnPos(rs), fmt.Sprintf("on all %d success paths the first ReadSegment of a fresh reader consumes exactly one marker (and its declared payload)", n), why)
 }
 
 // condSaysNil reports whether the path assumes slice value v to be nil.
